@@ -129,6 +129,9 @@ func (s *compositeSchedule) Left() int {
 	if left < 0 {
 		return -1
 	}
+	if leftAfter < 0 {
+		return -1 // Some of next schedules has unknown length.
+	}
 	return left + leftAfter
 }
 
